@@ -174,6 +174,68 @@ class Gen(G.GrammarGen):
         return super().match_body(later, self.rng.choice([1, 2]) if depth > 1 else depth)
 
 
+# --------------------------------------------------------------------------
+# lexemes of the base types (X01)
+# --------------------------------------------------------------------------
+# gen_grammar's Deriver spells a base-type token from a pool of 4-6 fixed samples per type (STRING: "s" 't' "" "a b"
+# 'q\'r').  The property is about the *values* the model gets, so the lexemes are generated here from the lexical
+# grammar of each base type (textx/lang.py): every optional part present / absent, every alternative, each at the
+# start / in the middle / at the end of the lexeme.
+def lex_digits(r):
+    return r.choice(["0", "7", "00", "007", "10", "42", "100", "9007199254740993"])
+
+
+def lex_int(r):
+    """[-+]?[0-9]+  -- sign absent / - / +, leading zeros, zero, beyond 2**53"""
+    return r.choice(["", "", "-", "+"]) + lex_digits(r)
+
+
+def lex_exp(r):
+    return r.choice(["e", "E"]) + r.choice(["", "+", "-"]) + r.choice(["0", "1", "2", "03", "10"])
+
+
+def lex_float(r, strict=False):
+    r"""[+-]?(\d+(\.\d*)?|\.\d+)([eE][+-]?\d+)?  (STRICTFLOAT: a dot or an exponent is there); exponents stay small"""
+    sign = r.choice(["", "", "-", "+"])
+    shape = r.choice(["d.", "d.d", ".d", "d.de", ".de", "d.e", "de"] + ([] if strict else ["d", "d"]))
+    small = ["0", "1", "5", "00", "12", "250", "007"]
+    out = ""
+    for c in shape:
+        out += r.choice(small) if c == "d" else ("." if c == "." else lex_exp(r))
+    return sign + out
+
+
+STRING_PLAIN = ["a", "b c", "x", " ", "1", "Q", ",", ";", "#", "//", "->", "\t", "t"]
+
+
+def lex_string(r):
+    r"""("(\\"|[^"])*")|('(\\'|[^'])*')  -- content = pieces: plain characters, the escaped delimiter, the other quote
+    (bare and after a backslash, where the backslash is literal), a backslash before an ordinary character, two
+    backslashes; the piece kinds are drawn independently, so each of them is first / inner / last / only piece."""
+    q = r.choice(['"', "'"])
+    o = "'" if q == '"' else '"'
+    n = r.choice([0, 1, 1, 2, 2, 3, 4])
+    pieces = []
+    for _ in range(n):
+        kind = r.weighted([("plain", 5), ("escq", 4), ("other", 2), ("escother", 1), ("bsl", 1), ("bslbsl", 1)])
+        pieces.append({"plain": None, "escq": "\\" + q, "other": o, "escother": "\\" + o,
+                       "bsl": "\\" + r.choice(["n", "t", "a"]), "bslbsl": "\\\\"}[kind] or r.choice(STRING_PLAIN))
+    body = "".join(pieces)
+    if body.endswith("\\") and not body.endswith("\\\\"):      # a lone backslash would take the closing quote with it
+        body += "z"
+    return q + body + q
+
+
+LEXEMES = {
+    "INT": lex_int,
+    "FLOAT": lex_float,
+    "NUMBER": lambda r: lex_int(r) if r.chance(0.4) else lex_float(r, strict=True),
+    "STRING": lex_string,
+    "BOOL": lambda r: r.choice(["true", "false", "True", "False", "0", "1"]),
+    "ID": lambda r: r.choice(["_", "_1", "a1", "Ab_c", "x", "if", "end", "true", "no", "ab", "a", "kw9", "A", "__x__"]),
+}
+
+
 class Deriver(G.Deriver):
     """gen_grammar's deriver, but when the fuel is used up (recursive grammars) the derivation is finished with the
     shortest alternatives instead of a filler token, so that derived sentences stay sentences of the grammar."""
@@ -182,6 +244,8 @@ class Deriver(G.Deriver):
 
     def __init__(self, g, rng):
         super().__init__(g, rng)
+        # own stream for the spelling of base-type tokens: the derivations, layouts and mutations stay what they were
+        self.lex = Rng("lex:%d" % rng.s)
         self.min = {n: self.INF for n in self.rules}
         for _ in range(len(self.rules) + 2):
             for n, r in self.rules.items():
@@ -207,6 +271,9 @@ class Deriver(G.Deriver):
     def d(self, e, depth):
         k = e["k"]
         low = self.fuel < 0 or depth > 4
+        if k == "ref" and e["name"] in LEXEMES and e["name"] not in self.rules:
+            old = super().d(e, depth)          # pool sample (same draws as before)
+            return [LEXEMES[e["name"]](self.lex)] if self.lex.chance(0.6) else old
         if k == "ref" and e["name"] in self.rules:
             self.fuel -= 1
             if depth > 12 or (low and self.min[e["name"]] >= self.INF):
@@ -284,6 +351,36 @@ def single_unord(g, rng):
         if isinstance(e, dict):
             if e.get("k") == "rep" and e.get("op") == "#" and e["x"]["k"] == "seq" and not e["x"].get("sup") and rng.chance(0.33):
                 e["x"] = e["x"]["xs"][0]
+            for v in list(e.values()):
+                walk(v)
+        elif isinstance(e, list):
+            for v in e:
+                walk(v)
+
+    for r in g["rules"]:
+        walk(r["body"])
+    return g
+
+
+# string matches whose text contains a quote or a backslash (X01): gen_grammar's KEYWORDS contain neither, so the
+# unquoting / unescaping of a grammar string match (visit_str_match: `[1:-1]` + decode_escapes) was only ever applied
+# to texts it leaves unchanged.  Both quotes, a backslash, each first / inner / last character of the literal.
+# (no backslash at the end of a literal or before a quote: the grammar language reads backslash-quote after any backslash as an
+# escaped quote, so a literal ending in a backslash swallows what follows up to the next quote and cannot be rendered
+# reliably -- see notes, X01)
+QUOTED_LITS = ["'", '"', "it's", "'a", "b'", 'a"', '"b', "''", "\\n", "a\\\\b", "'\"", "a'b\"c"]
+
+
+def quote_lits(g, rng):
+    """one in ~10 string matches (separators included) becomes a literal with a quote / backslash in it"""
+    import copy
+
+    g = copy.deepcopy(g)
+
+    def walk(e):
+        if isinstance(e, dict):
+            if e.get("k") == "str" and rng.chance(0.1):
+                e["v"] = rng.choice(QUOTED_LITS)
             for v in list(e.values()):
                 walk(v)
         elif isinstance(e, list):
@@ -685,6 +782,7 @@ class Prop(Check):
             g = single_unord(g, r)
             if style == "doc":
                 g = make_productive(g, r)
+            g = quote_lits(g, Rng("qlit:%d" % r.s))      # own stream: the rest of the case stays what it was
             cfg = r.choice(CFGS)
             texts = sentences(g, r, 6, 3)
             keep = 4 if tier == "quick" else 6
